@@ -35,6 +35,21 @@ Definition g_rev_keeps (n : net) (el : Z) : bool :=
 Definition g_edge_weight (is_fibre : bool) (length_cm : Z) : Z :=
   if is_fibre then length_cm else 1.
 
+(* request.py: correct_json_route_list: positions popped from loose_list / nodes_list when the own source is
+   listed first, the own destination last (Python indices); an unusable LOOSE hop pops the hop type found at
+   nodes_list.index(n_id) (matched literally) *)
+Definition g_clean_pops : list Z := [0; 0; (-1); (-1)].
+
+(* request.py: compare_reqs, the attributes that must be equal (plain `req1.x == req2.x`) *)
+Definition g_twin_attrs : list string :=
+  ["source"; "destination"; "bidir"; "tsp"; "tsp_mode"; "baud_rate"; "nodes_list"; "loose_list"; "spacing"; "power"; "nb_channel"; "f_min"; "f_max"; "format"; "OSNR"; "roll_off"; "tx_power"]%string.
+
+(* topology_parameters.py: BaseParams.update_attr matched literally: list and dict defaults are deep-copied per
+   instance, so no PathRequest shares nodes_list / loose_list with another one (batches are independent) *)
+
+(* json_io.py: requests_from_json matched literally: the route objects are sorted by x['index'] (numeric), the
+   include list and the hop types are read from them in that order *)
+
 (* request.py: compute_path_dsjctn step 4 (full_path = the candidate, short_path = its ROADM short list) *)
 Definition g_vector_include_ok (nodes_list full_path short_path : list Z) : bool :=
   (ispart nodes_list full_path).
